@@ -7,5 +7,5 @@ wt=/tmp/rw_$n.$$
 flock /tmp/.verif_wt.lock git -C /repo worktree add -q --detach $wt HEAD || exit 2
 if ! git -C $wt apply $d 2>/dev/null; then echo "patch does not apply"; flock /tmp/.verif_wt.lock git -C /repo worktree remove --force $wt; exit 2; fi
 vd=/tmp/rv_$n.$$; mkdir -p $vd/evidence; cp /verif/known_findings.json $vd/
-GOFLAGS=-mod=mod GOPROXY=off GOSUMDB=off GOTOOLCHAIN=local ${BIN:-/verif/bin/maddyverif} -repo $wt -verif $vd -property $prop 2>&1 | grep -v "KNOWN-FINDING\|parseRejectDirective:lit1\|C09.K4 smtp.statusWrapper\|K3a msgpipeline.(\*msgpipelineDelivery).AddRcpt:recipients:append1" | sed "s#$wt/##g" | cut -c1-${3:-400}
+GOFLAGS=-mod=mod GOPROXY=off GOSUMDB=off GOTOOLCHAIN=local ${BIN:-/verif/bin/maddyverif} -repo $wt -verif $vd -property $prop 2>&1 | grep -v "KNOWN-FINDING\|parseRejectDirective:lit1@case:1:\|C09.K4 smtp.statusWrapper\|K3a msgpipeline.(\*msgpipelineDelivery).AddRcpt:recipients:append1" | sed "s#$wt/##g" | cut -c1-${3:-400}
 flock /tmp/.verif_wt.lock git -C /repo worktree remove --force $wt; rm -rf $vd
